@@ -1,7 +1,7 @@
 /* C16 driver: plays a module under a scripted history of play / position-control calls and prints, per frame,
  * the frame info ("F ...") and optionally the voice table ("D ...").
  *   c16_drv <module> <rate> <format> <numvoc> <mode|-1> <dumpvoices 0/1> [<report sequencer steps 0/1>]
- * stdin: "P n" play n frames | "SP pos" | "SR row" | "NX" | "PV" | "SK ms" | "RS" | "ST" | "MODE m" (xmp_set_player MODE while playing) | "TF f" (xmp_set_tempo_factor(f / 100.0) while playing)
+ * stdin: "P n" play n frames | "SP pos" | "SR row" | "NX" | "PV" | "SK ms" | "RS" | "ST" | "MODE m" (xmp_set_player MODE while playing) | "TF f" (xmp_set_tempo_factor(f / 100.0) while playing) | "RE rate" (xmp_end_player, xmp_start_player at another rate)
  * stdout: header "M len nseq | xxo | rows", "C rate mono 8bit tf_hex rr_hex", "V maxvoc vchans ntracks"; then "OP name ret" / "F ..." / "D ..." / "END ret"
  */
 #include "vcommon.h"
@@ -82,6 +82,14 @@ int main(int argc, char **argv)
 		else if (!strcmp(op, "RS")) { xmp_restart_module(c); puts("OP RS 0"); }
 		else if (!strcmp(op, "ST")) { xmp_stop_module(c); puts("OP ST 0"); }
 		else if (!strcmp(op, "MODE")) printf("OP MODE %d\n", xmp_set_player(c, XMP_PLAYER_MODE, a));
+		else if (!strcmp(op, "RE")) {
+			/* end the player and start it again at another sampling rate on the same context (module stays loaded) */
+			xmp_end_player(c);
+			rate = a;
+			if (xmp_start_player(c, rate, format) < 0) { puts("START-FAILED"); return 0; }
+			printf("OP RE 0\n");
+			printf("C %d %d %d %a %a\n", rate, (format & XMP_FORMAT_MONO) ? 1 : 0, (format & XMP_FORMAT_8BIT) ? 1 : 0, ctx->m.time_factor, ctx->m.rrate);
+		}
 		else if (!strcmp(op, "TF")) {
 			/* tempo factor a / 100 while playing; the new output constants follow as a "C" line */
 			printf("OP TF %d\n", xmp_set_tempo_factor(c, a / 100.0));
